@@ -85,6 +85,27 @@ pub fn run(mut cx: Ctx) -> ! {
                 let r = std::panic::catch_unwind(std::panic::AssertUnwindSafe(|| directory_handler(request(&full), st_off.clone(), root_s, route, 0)));
                 judge(&mut s, "directory route (other pattern shapes)", mask, &full, &want, r);
             }
+            // the same with an index file at the directory root (no generated tree has one): the route's own path
+            // must then serve it
+            {
+                let ri = root.join("index.html");
+                std::fs::write(&ri, b"<root index>").unwrap();
+                for (route, full, rest) in [("/s", "/s", ""), ("/s/", "/s/", ""), ("/*", "/", ""), ("/s/*", "/s/", ""), ("/s*", "/s", ""), ("/s*", "/s/", "/")] {
+                    s.states += 1;
+                    s.nontrivial += 1;
+                    let want = resolve_dir(&root, rest, full);
+                    let r = std::panic::catch_unwind(std::panic::AssertUnwindSafe(|| directory_handler(request(full), st_off.clone(), root_s, route, 0)));
+                    judge(&mut s, "directory route (index at the root)", mask, full, &want, r);
+                }
+                let h: &(dyn Fn(humphrey::http::Request, Arc<()>, &str) -> humphrey::http::Response) = &h_dir;
+                for (route, full, rest) in [("/*", "/", ""), ("/s/*", "/s/", "")] {
+                    s.states += 1;
+                    let want = resolve_dir(&root, rest, full);
+                    let r = std::panic::catch_unwind(std::panic::AssertUnwindSafe(|| h(request(full), Arc::new(()), route)));
+                    judge(&mut s, "serve_dir (index at the root)", mask, full, &want, r);
+                }
+                let _ = std::fs::remove_file(&ri);
+            }
             // serve_file: the configured file and nothing else, whatever the request path says; and
             // serve_as_file_path configured with a trailing slash
             let h_lit_slash = serve_as_file_path::<()>(root_slash);
